@@ -121,6 +121,12 @@ void ParallelAction::onResume() {
     tryFinish();
 }
 
+void ParallelAction::onFinished(bool is_succ, const Reason &why, const Trace &trace) {
+    //! 有可能不是子动作全部结束产生的 finish（如自己超时了），这时还在执行的子动作要停掉
+    stopAllActions();
+    AssembleAction::onFinished(is_succ, why, trace);
+}
+
 void ParallelAction::onReset() {
     for (auto child : children_)
         child->reset();
